@@ -12,7 +12,7 @@ EXTENDS Common
 
 EnvDevs == {"envelopeError", "wrongEnvTypeEcho", "otherFormatEnvelope", "corruptedSignature", "wrongPayloadType",
             "targetNonObject", "targetNull", "otherDigest", "otherSize", "otherMediaType", "annDropped", "annDroppedEmpty", "annAltered",
-            "extraPayloadField", "extraDescField", "altSpellingTarget", "altSpellingDescKey", "payloadTrailing"}
+            "extraPayloadField", "extraPayloadFieldDescName", "extraDescField", "altSpellingTarget", "altSpellingDescKey", "payloadTrailing"}
 RawDevs == {"describeOtherKeyID", "keySpecUndecodable", "keySpecOtherFamily", "keySpecOtherSize",
             "generateOtherKeyID", "generateEmptyKeyID", "unparsableCert", "emptyChain", "chainNotMatchingKey",
             "sigOverOtherBytes", "corruptedRawSignature"}
@@ -27,7 +27,7 @@ EnvChecks == <<
   [name |-> "payload-type",      stops |-> {"wrongPayloadType"}],
   [name |-> "payload-decode",    stops |-> {"targetNonObject", "payloadTrailing"}],
   [name |-> "descriptor-equal",  stops |-> {"targetNull", "otherDigest", "otherSize", "otherMediaType", "annDropped", "annDroppedEmpty", "annAltered"}],
-  [name |-> "unknown-fields",    stops |-> {"extraPayloadField", "extraDescField", "altSpellingTarget", "altSpellingDescKey"}] >>
+  [name |-> "unknown-fields",    stops |-> {"extraPayloadField", "extraPayloadFieldDescName", "extraDescField", "altSpellingTarget", "altSpellingDescKey"}] >>
 RawChecks == <<
   [name |-> "describe-key-id",   stops |-> {"describeOtherKeyID"}],
   [name |-> "decode-key-spec",   stops |-> {"keySpecUndecodable"}],
